@@ -109,7 +109,7 @@ Definition dec_pstate (n : N) : pstate := if n =? 0 then Probe else if n =? 1 th
 Definition enc_progress (p : progress) : list N :=
   [matched p; next_idx p; enc_pstate (pr_state p); enc_bool (paused p); pending_snapshot p;
    pending_request_snapshot p; enc_bool (recent_active p)]
-  ++ enc_inflights (ins p) ++ [commit_group_id p; committed_index p].
+  ++ enc_inflights (ins p) ++ [commit_group_id p; Progress.committed_index p].
 Definition pprogress : P progress :=
   a <~ pnum ;; b <~ pnum ;; c <~ pnum ;; d <~ pbool ;; e <~ pnum ;; f <~ pnum ;; g <~ pbool ;;
   i <~ pinflights ;; h <~ pnum ;; j <~ pnum ;;
@@ -120,9 +120,9 @@ Definition enc_role (r : role) : N :=
 Definition dec_role (n : N) : role :=
   if n =? 0 then Follower else if n =? 1 then Candidate else if n =? 2 then Leader else PreCandidate.
 
-Definition enc_store (m : mem) : list N :=
+Definition enc_store (m : MemStorage.mem) : list N :=
   enc_hs (hs m) ++ enc_cs (cs m) ++ enc_entries (entries m) ++ [snap_index m; snap_term m].
-Definition pstore : P mem :=
+Definition pstore : P MemStorage.mem :=
   h <~ phs ;; c <~ pcs ;; e <~ dec_entries ;; si <~ pnum ;; st <~ pnum ;;
   pret (mkMem h c e si st false false None).
 
